@@ -44,6 +44,11 @@ Definition sub_unchanged (pre post : option wr) : bool :=
 Definition has_names (post : option wr) (ns : list N) : bool :=
   match post with Some w => nlist_eqb (names w) ns | None => false end.
 
+(* the warming flag is consumed by every request that is processed on the current nonce:
+   a forced answer cannot repeat by itself (no request/response loop) *)
+Definition flag_cleared (post : option wr) : bool :=
+  match post with Some w => negb (always_respond w) | None => true end.
+
 (* SotW rows.  pre/post = the server's record for the request's type before/after. *)
 Definition row_sotw (pre : option wr) (r : req) (o : outcome) (post : option wr) : bool :=
   match o with
@@ -62,7 +67,7 @@ Definition row_sotw (pre : option wr) (r : req) (o : outcome) (post : option wr)
           else if negb (r_nonce r =? nonce_sent w)
           then negb b && sub_unchanged pre post                        (* stale nonce: silent *)
           else
-            has_names post cur && (osent post =? nonce_sent w) &&
+            has_names post cur && (osent post =? nonce_sent w) && flag_cleared post &&
             let added := diff cur (names w) in
             if always_respond w then b                                 (* warming: must be answered *)
             else if negb (is_nil added) then b && nlist_eqb subs added (* added names: answered, only those *)
@@ -99,7 +104,7 @@ Definition row_delta (pre : option wr) (r : dreq) (o : outcome) (post : option w
         if negb (d_nonce r =? 0) && negb (d_nonce r =? nonce_sent w)
         then negb b && sub_unchanged pre post                          (* stale *)
         else
-          (osent post =? nonce_sent w) &&
+          (osent post =? nonce_sent w) && flag_cleared post &&
           if requires_names_mod (d_ty r) && wildcard w
           then has_names post [] &&
                (if negb (is_nil (d_sub r)) then b
